@@ -60,11 +60,11 @@ type RowSpec struct {
 
 // DocSpec lays a document out; every row but `plain` carries one combo {category, key, ext} of the case.
 type DocSpec struct {
-	Kind       string    `json:"kind"`                  // invoice | order | delivery
-	ValueDate  bool      `json:"value_date,omitempty"`  // the case's date is the value date, the issue date lies 400 days later
-	Customer   string    `json:"customer,omitempty"`    // tax country of the customer
-	ComboCtry  string    `json:"combo_country,omitempty"`
-	Rows       []RowSpec `json:"rows"`
+	Kind      string    `json:"kind"`                 // invoice | order | delivery
+	ValueDate bool      `json:"value_date,omitempty"` // the case's date is the value date, the issue date lies 400 days later
+	Customer  string    `json:"customer,omitempty"`   // tax country of the customer
+	ComboCtry string    `json:"combo_country,omitempty"`
+	Rows      []RowSpec `json:"rows"`
 }
 
 // EditSpec is what is changed on the calculated in-memory document before it is calculated again.
